@@ -18,7 +18,8 @@ import (
 
 var (
 	verifMx      sync.Mutex
-	verifInit    bool
+	verifOnce    sync.Once
+	verifActive  bool
 	verifLog     *os.File
 	verifCrashAt string
 	verifCrashN  int
@@ -28,7 +29,7 @@ var (
 )
 
 func verifSetup() {
-	verifInit = true
+	verifActive = os.Getenv("SCIPIPE_VERIF_LOG") != "" || os.Getenv("SCIPIPE_VERIF_CRASH") != "" || os.Getenv("SCIPIPE_VERIF_YIELD") != ""
 	if p := os.Getenv("SCIPIPE_VERIF_LOG"); p != "" {
 		f, err := os.OpenFile(p, os.O_APPEND|os.O_CREATE|os.O_WRONLY, 0644)
 		if err == nil {
@@ -50,10 +51,13 @@ func verifSetup() {
 
 // verifPoint logs an event, optionally delays, optionally kills the process group
 func verifPoint(name string, keys ...string) {
-	verifMx.Lock()
-	if !verifInit {
-		verifSetup()
+	// without any of the environment variables the hooks do nothing and take no lock, so that they do not
+	// order the goroutines of a race-detector build
+	verifOnce.Do(verifSetup)
+	if !verifActive {
+		return
 	}
+	verifMx.Lock()
 	verifHits[name]++
 	n := verifHits[name]
 	if verifLog != nil {
